@@ -106,3 +106,12 @@ package sub
 //@   ensures !wasClosed ==> isnil(result)
 //@
 // ---- end generated AddPipe contracts ----
+//@
+//@ func (*socket).Close
+//@   ghost was = s.closed at call:Lock#1
+//@   loop 1 complete
+//@   loop 2 complete
+//@   ensures was ==> result == protocol.ErrClosed && !called("Close")
+//@   ensures !was ==> isnil(result)
+//@   before call:Unlock#2 assert s.closed && !was
+//@   before call:Close#1 assert !held(s.Mutex)
